@@ -88,7 +88,7 @@ class C19(Prop):
     thorough_examples = 3000
     exhaustive_quick = True
     exhaustive_thorough = True
-    floors = {'parity': 0.15, 'classify': 0.2, 'two_sources': 0.05}
+    floors = {'parity': 0.1, 'classify': 0.2, 'two_sources': 0.05}
 
     def enumerate(self, tier, shard=0, nshards=1):
         i = 0
